@@ -283,6 +283,7 @@ range, the usual case) and nothing wraps, then `relStart + baseSvma + c.fileOff 
 `relStart + (a − start) = c.svma + (fileOffset(a) − c.fileOff) − baseSvma` with
 `fileOffset(a) = off + (a − start)`. -/
 theorem C02_bias (fi : SvmaBias.FileInfo) (off avma size : Nat) (c : SvmaBias.Contribution)
+    (hw : SvmaBias.rangesWrap fi.contribs off size = false)
     (hc : SvmaBias.refContribution fi.contribs off size = some c) (hle : c.fileOff ≤ off)
     (h1 : off - c.fileOff ≤ avma) (h2 : avma < SvmaBias.U64)
     (h3 : c.svma ≤ avma - (off - c.fileOff))
@@ -303,17 +304,58 @@ theorem C02_bias (fi : SvmaBias.FileInfo) (off avma size : Nat) (c : SvmaBias.Co
       = fi.baseSvma + (avma - (off - c.fileOff) - c.svma) := Nat.mod_eq_of_lt (by omega)
   refine ⟨avma - (fi.baseSvma + (avma - (off - c.fileOff) - c.svma)), ?_, by omega⟩
   unfold SvmaBias.relStart SvmaBias.computeBias
-  simp only [hc, hng, hnl, if_false, hbias, hbase]
+  simp only [hw, Bool.false_eq_true, hc, hng, hnl, if_false, hbias, hbase]
   have hnb : ¬ fi.baseSvma + (avma - (off - c.fileOff) - c.svma) > avma := by omega
+  simp only [hnb, if_false]
+  congr 1
+  exact Nat.mod_eq_of_lt (by omega)
+
+/-- The other branch of `compute_vma_bias_impl` (svma_file_range.rs:179-180): the mapping starts *before* the
+reference contribution in the file (`c.fileOff > off`: the mapping encompasses the segment, the d8 case of the
+source comments). Then the contribution sits `c.fileOff − off` bytes into the mapping and
+`relStart + baseSvma + (c.fileOff − off) = c.svma`: the relative start is the stated address the first mapped
+byte *would* have, `c.svma − (c.fileOff − off) − baseSvma`. -/
+theorem C02_bias_before (fi : SvmaBias.FileInfo) (off avma size : Nat) (c : SvmaBias.Contribution)
+    (hw : SvmaBias.rangesWrap fi.contribs off size = false)
+    (hc : SvmaBias.refContribution fi.contribs off size = some c) (hgt : c.fileOff > off)
+    (h1 : avma + (c.fileOff - off) < SvmaBias.U64)
+    (h3 : c.svma ≤ avma + (c.fileOff - off))
+    (h4 : fi.baseSvma + (c.fileOff - off) ≤ c.svma)
+    (h5 : c.svma - (c.fileOff - off) - fi.baseSvma < 2 ^ 32) :
+    ∃ r, SvmaBias.relStart fi off avma size = .ok r ∧ r + fi.baseSvma + (c.fileOff - off) = c.svma := by
+  have hU : SvmaBias.U64 = 18446744073709551616 := by decide
+  have hP : (2 : Nat) ^ 32 = 4294967296 := by decide
+  have hnw : ¬ avma + (c.fileOff - off) ≥ SvmaBias.U64 := by omega
+  have hbias : (avma + (c.fileOff - off) + SvmaBias.U64 - c.svma) % SvmaBias.U64
+      = avma + (c.fileOff - off) - c.svma := by
+    have : avma + (c.fileOff - off) + SvmaBias.U64 - c.svma
+        = (avma + (c.fileOff - off) - c.svma) + SvmaBias.U64 := by omega
+    rw [this, Nat.add_mod_right, Nat.mod_eq_of_lt (by omega)]
+  have hbase : (fi.baseSvma + (avma + (c.fileOff - off) - c.svma)) % SvmaBias.U64
+      = fi.baseSvma + (avma + (c.fileOff - off) - c.svma) := Nat.mod_eq_of_lt (by omega)
+  refine ⟨avma - (fi.baseSvma + (avma + (c.fileOff - off) - c.svma)), ?_, by omega⟩
+  unfold SvmaBias.relStart SvmaBias.computeBias
+  simp only [hw, Bool.false_eq_true, hc, hgt, hnw, if_true, if_false, hbias, hbase]
+  have hnb : ¬ fi.baseSvma + (avma + (c.fileOff - off) - c.svma) > avma := by omega
   simp only [hnb, if_false]
   congr 1
   exact Nat.mod_eq_of_lt (by omega)
 
 /-- No reference contribution ⇒ the mapping is not added at all (the frames stay raw). -/
 theorem C02_bias_not_found (fi : SvmaBias.FileInfo) (off avma size : Nat)
+    (hw : SvmaBias.rangesWrap fi.contribs off size = false)
     (hc : SvmaBias.refContribution fi.contribs off size = none) :
     SvmaBias.relStart fi off avma size = .notFound := by
-  simp [SvmaBias.relStart, SvmaBias.computeBias, hc]
+  simp [SvmaBias.relStart, SvmaBias.computeBias, hc, hw]
+
+/-- A mapped file range that wraps `u64` (page offset within `size` of 2^64) makes the unchecked additions of
+`encompasses_file_range` overflow: the debug build panics (excluded point of `C02_bias`; `decide`). -/
+theorem C02_bias_wrap_panics :
+    SvmaBias.relStart ⟨0, [⟨0, 0, 0x6000⟩]⟩ (2 ^ 64 - 0x1000) 0x400000 0x2000 = .panic := by decide
+
+/-- the d8 shape: a mapping that starts one page before its segment in the file -/
+example : SvmaBias.relStart ⟨0, [⟨0x1000, 0x1000, 0x3000⟩]⟩ 0 0x7f0000000000 0x5000 = .ok 0 ∧
+    SvmaBias.relStart ⟨0x1000, [⟨0x3000, 0x2000, 0x1000⟩]⟩ 0x1000 0x7f0000000000 0x3000 = .ok 0x1000 := by decide
 
 /-! ### Non-vacuity: the "hard case" of svma_file_range.rs (SVMA gap between segments) and the repo's own
 unit-test vector -/
